@@ -322,6 +322,9 @@ PROPS["C13"] = {
         # custom -bin metadata: every value of every key (several entries, several values each, any letter case)
         {"name": "C13BinMeta", "pkg": RC, "test": "TestVerifC13BinMeta", "kind": "rapid",
          "checks": {"quick": 15000, "thorough": 200000}, "shards": {"quick": 2, "thorough": 8}},
+        # the same end to end: a bad -bin header / trailer from the real reference server, every kind of RPC, also when the client cancels
+        {"name": "C13BinE2E", "pkg": RC, "test": "TestVerifC13BinE2E", "kind": "rapid",
+         "checks": {"quick": 150, "thorough": 3000}, "shards": {"quick": 2, "thorough": 8}, "timeout": {"quick": 600, "thorough": 3600}},
         {"name": "C13Fuzz", "pkg": RC, "test": "FuzzVerifC13Examiners", "kind": "fuzz", "fuzz_target": "FuzzVerifC13Examiners",
          "only_tiers": ["thorough"], "fuzztime": {"thorough": "90s"}, "workers": 16, "timeout": {"thorough": 900}},
     ],
@@ -369,6 +372,7 @@ PROPS["C11"] = {
     "units": [
         # real in-process controller, server slow or unwilling to stop
         {"name": "C11InProcess", "pkg": CC, "test": "TestVerifC11InProcess", "kind": "enum", "timeout": 120},
+        {"name": "C11Printer", "pkg": CC, "test": "TestVerifC11Printer", "kind": "enum"},
         # peers that are OS processes (runCommand) and go away while the runner still writes to them
         {"name": "C11OSPeers", "pkg": CC, "test": "TestVerifC11OSPeers", "kind": "enum", "timeout": 900},
         {"name": "C11Batch", "pkg": CC, "test": "TestVerifC11Batch", "kind": "rapid", "race": {"quick": False, "thorough": True},
@@ -393,6 +397,8 @@ PROPS["C04"] = {
          "checks": {"quick": 20000, "thorough": 300000}, "shards": {"quick": 2, "thorough": 8}},
         # feedback that reaches the runner through a reference server's stderr (terminated or not, before or after the answer)
         {"name": "C04Sideband", "pkg": CC, "test": "TestVerifC04Sideband", "kind": "enum"},
+        # feedback lines produced by the reference server's real printer (names / messages with %, colons, tabs, unicode)
+        {"name": "C04Printer", "pkg": CC, "test": "TestVerifC04Printer", "kind": "enum"},
         # the server under test is gone (status 0 or killed) after k of n cases: the rest counts against success whatever its marking
         {"name": "C04ServerExit", "pkg": CC, "test": "TestVerifC04ServerExit", "kind": "enum"},
         {"name": "C04FateTable", "pkg": CC, "test": "TestVerifC04FateTable", "kind": "enum", "shards": {"quick": 4, "thorough": 4}, "timeout": 900},
